@@ -226,6 +226,11 @@ def okOp (s : St) (o : Op) : Bool := !(o.mutates && s.itr.isSome)
 
 def run (eq : Val → Val → Bool) (s : St) (ops : List Op) : St := ops.foldl (fun s o => (step eq s o).1) s
 
+/-- the value returned by every call of a history -/
+def trace (eq : Val → Val → Bool) (s : St) : List Op → List Ret
+  | [] => []
+  | o :: os => (step eq s o).2 :: trace eq (step eq s o).1 os
+
 def okRun (eq : Val → Val → Bool) : St → List Op → Bool
   | _, [] => true
   | s, o :: os => okOp s o && okRun eq (step eq s o).1 os
